@@ -267,6 +267,25 @@ func c06Run(t *testing.T, c *evid.Collector) {
 				{init0, init0, {K: "part", Ref: 0, PartN: 1, Body: b("first upload")}, {K: "part", Ref: 1, PartN: 1, Body: b("second upload")}, {K: "complete", Ref: 1, Parts: []prog.Part{{N: 1}}}, {K: "complete", Ref: 0, Parts: []prog.Part{{N: 1}}}},
 				{init0, {K: "part", Ref: 0, PartN: 0, Body: b("x")}, {K: "part", Ref: 0, PartN: 10001, Body: b("x")}, {K: "part", Ref: 0, PartN: 3, Body: b("x")}, {K: "complete", Ref: 0, Parts: []prog.Part{{N: 3}}}, {K: "part", Ref: 0, PartN: 3, Body: b("late")}},
 			}
+			{
+				// upload IDs are issued by one counter per server: after eight finished uploads the
+				// next two of one key have IDs of different length ("9", "10"); both stay usable
+				var many []prog.Op
+				for j := 0; j < 8; j++ {
+					many = append(many, prog.Op{K: "init", B: "bk0", Key: "m1"})
+					if j%2 == 0 {
+						many = append(many, prog.Op{K: "abort", Ref: j})
+					} else {
+						many = append(many, prog.Op{K: "part", Ref: j, PartN: 1, Body: b("x")}, prog.Op{K: "complete", Ref: j, Parts: []prog.Part{{N: 1}}})
+					}
+				}
+				many = append(many, init0, init0,
+					prog.Op{K: "part", Ref: 8, PartN: 7, Body: b("ninth-7")}, prog.Op{K: "part", Ref: 9, PartN: 7, Body: b("tenth-7")}, prog.Op{K: "part", Ref: 9, PartN: 2, Body: b("tenth-2")},
+					prog.Op{K: "part", Ref: 8, PartN: 7, Body: b("ninth-7 again")}, prog.Op{K: "complete", Ref: 8, Parts: []prog.Part{{N: 7, Tag: "stale"}}},
+					prog.Op{K: "complete", Ref: 9, Parts: []prog.Part{{N: 2}, {N: 7}}}, prog.Op{K: "get", B: "bk0", Key: "m0"},
+					prog.Op{K: "complete", Ref: 8, Parts: []prog.Part{{N: 7}}}, prog.Op{K: "get", B: "bk0", Key: "m0"}, prog.Op{K: "abort", Ref: 9})
+				scen = append(scen, many)
+			}
 			if k == backends.Mem || k == backends.MultiMem || (evid.Thorough() && k == backends.Bolt) {
 				// more parts than any listing page holds (1000) and, thorough, the most an upload
 				// can have (10000): two uploads of the key with the same part numbers (with gaps),
